@@ -4,6 +4,8 @@ import glob, json, os, re
 V = os.path.dirname(os.path.dirname(os.path.abspath(__file__)))
 rows = []
 for d in sorted(glob.glob(os.path.join(V, 'seeded', '*'))):
+    if not os.path.isdir(d):
+        continue
     m = json.load(open(os.path.join(d, 'meta.json')))
     sid = os.path.basename(d)
     brk = re.sub(r'\s+', ' ', m.get('breaks') or '')
@@ -11,7 +13,13 @@ for d in sorted(glob.glob(os.path.join(V, 'seeded', '*'))):
 text = ('Each change compiles, keeps the pinned suite green (33 tests incl. doctests) and has a demonstration test that fails with it and\n'
         'passes without it; each was confirmed by me in its worktree before being kept (`seeded/<id>/meta.json`: what it breaks, what it\n'
         'needs to manifest, what I ran). "witness" = the contract proof was UNDECIDED after the rewrite (lost anchor / construct outside the\n'
-        'rules) or failed, and the native search produced a failing input that replays on the real code.\n\n'
+        'rules) or failed, and the native search produced a failing input that replays on the real code.  Seeds -1/-2 are the first round,\n'
+        '-3/-4 a second round by fresh sub-agents after the checks had been strengthened; the recorded outcome is that of the FINAL machinery.\n'
+        'First-pass misses and what was strengthened: round 1 - C03-2 (push_null ownership), C17-2 / C08-2 (label ownership), C12-1 (ubjson unit),\n'
+        'C13-2 (Frame-level transpose_one contracts), C05-1/2, C16-1/2, C19-1/2, C09-2 (no native fallback yet: c05/c16/c19/c09 oracles added),\n'
+        'C02-1 (70000-frame candidates added), C07-2 (C07 now owns the reader-acceptance clause); round 2 - C06-2 (C06 now owns the Game Start\n'
+        'parser, unterminated / half-character text-field corruptions added), C10-2 (zero-frame candidates added), C13-4 (row view checked\n'
+        'mid-stream).  Everything else was caught on the first pass.\n\n'
         '| Seed | What it breaks | Outcome of the registered check(s) |\n|---|---|---|\n' + '\n'.join(rows) + '\n')
 p = os.path.join(V, 'DESIGN.md')
 s = open(p).read()
